@@ -42,6 +42,9 @@ func (lrw *limitedResponseWriter) Write(b []byte) (int, error) {
 	}
 
 	lrw.ensureHeaderWritten()
+	if lrw.limitReached {
+		return 0, fmt.Errorf("response body exceeds limit of %d bytes", lrw.limit)
+	}
 
 	n, err := lrw.ResponseWriter.Write(b)
 	lrw.written += int64(n)
@@ -107,6 +110,13 @@ func (lrw *limitedResponseWriter) ensureHeaderWritten() {
 
 	if lrw.statusCode == 0 {
 		lrw.statusCode = http.StatusOK
+		// The implicit 200 of a handler that starts with Write or Flush: an announced excess is
+		// refused here, as WriteHeader does for an explicit status
+		if lrw.declaresTooMuch(lrw.statusCode) {
+			lrw.limitReached = true
+			lrw.refuse()
+			return
+		}
 	}
 
 	lrw.ResponseWriter.WriteHeader(lrw.statusCode)
@@ -148,6 +158,10 @@ func (lrw *limitedResponseWriter) WriteHeader(statusCode int) {
 // Support http.Hijacker if underlying supports it (for websockets)
 func (lrw *limitedResponseWriter) Hijack() (net.Conn, *bufio.ReadWriter, error) {
 	if h, ok := lrw.ResponseWriter.(http.Hijacker); ok {
+		// A status recorded before the hijack (WriteHeader(101), then Hijack) is sent first, as net/http does
+		if !lrw.wroteHeader && !lrw.limitReached && lrw.statusCode != 0 {
+			lrw.ensureHeaderWritten()
+		}
 		conn, brw, err := h.Hijack()
 		if err == nil {
 			// The connection now belongs to the caller: nothing more may be written through this writer
